@@ -1346,4 +1346,126 @@ theorem rule_backmatch (E : Env) (k : OK ρ) (n fuel : Nat) (search : Nat) (s : 
     simp only [hf] at key; obtain ⟨L', hL'⟩ := key
     simp [hL', Gen.PegSkel.RULE_BACKMATCH_rest0, execL, bind, Except.bind]
 
+/-! #### RULE_UNREF: the in-place compaction of the tag stack IS the model's `filter` -/
+
+theorem set_take_succ {α : Type} (l : List α) (w : Nat) (e : α) (h : w < l.length) : (l.set w e).take (w + 1) = l.take w ++ [e] := by
+  rw [List.take_add_one, List.take_set_of_le (Nat.le_refl w)]
+  simp [h]
+
+theorem drop_take_snoc {α : Type} (l : List α) (c i : Nat) (hc : c ≤ i) (hi : i < l.length) :
+    (l.drop c).take (i + 1 - c) = (l.drop c).take (i - c) ++ [l[i]] := by
+  have : i + 1 - c = (i - c) + 1 := by omega
+  rw [this, List.take_add_one]
+  have h2 : c + (i - c) = i := by omega
+  simp [h2, hi]
+
+/-- the compaction loop: locals 0 = tcap, 1 = final_tcap, 2 = w, 3 = i.  Invariant: the first `w` entries are the kept ones of
+    `T0[0, i)`, the entries from `i` on are untouched.  `f` = IR loop fuel. -/
+theorem unref_loop (E : Env) (k : OK ρ) (r : ρ) (tag fuel : Nat) (T0 : List (Nat × Val)) (c : Nat) :
+    ∀ (m f : Nat) (L : Loc) (s : St), m = L.num 1 - L.num 3 → m + 1 ≤ f →
+      L.num 1 = T0.length → s.tagged.length = T0.length → c ≤ L.num 2 → L.num 2 ≤ L.num 3 →
+      s.tagged.take (L.num 2) = T0.take c ++ ((T0.drop c).take (L.num 3 - c)).filter (fun tv => tv.1 != tag % 256) →
+      s.tagged.drop (L.num 3) = T0.drop (L.num 3) →
+      ∃ L' T', loopN (fun L s => evalCond E (ops [(1, r)] [(2, tag)]) L s (.numLtNum 3 1))
+          (fun L s => execL E k (ops [(1, r)] [(2, tag)]) fuel Gen.PegSkel.RULE_UNREF_body0 L s) f L s = .ok (.cont L' { s with tagged := T' }) ∧
+        L'.ptr = L.ptr ∧ T'.take (L'.num 2) = T0.take c ++ (T0.drop c).filter (fun tv => tv.1 != tag % 256) := by
+  intro m
+  induction m with
+  | zero =>
+    intro f L s hm hf h1 hlen hc hw htake hdrop
+    obtain ⟨f', rfl⟩ : ∃ f', f = f' + 1 := ⟨f - 1, by omega⟩
+    have hge : ¬ L.num 3 < L.num 1 := by omega
+    refine ⟨L, s.tagged, by simp [loopN, evalCond, hge], rfl, ?_⟩
+    have hall : (T0.drop c).take (L.num 3 - c) = T0.drop c := List.take_of_length_le (by simp only [List.length_drop]; omega)
+    rw [htake, hall]
+  | succ m ih =>
+    intro f L s hm hf h1 hlen hc hw htake hdrop
+    obtain ⟨f', rfl⟩ : ∃ f', f = f' + 1 := ⟨f - 1, by omega⟩
+    have hlt : L.num 3 < L.num 1 := by omega
+    have hi : L.num 3 < T0.length := by omega
+    have hi' : L.num 3 < s.tagged.length := by omega
+    have he : s.tagged[L.num 3] = T0[L.num 3] := by
+      have h1' := List.drop_eq_getElem_cons hi'
+      have h2' := List.drop_eq_getElem_cons hi
+      rw [h1', h2'] at hdrop
+      exact (List.cons.inj hdrop).1
+    have hdrop1 : s.tagged.drop (L.num 3 + 1) = T0.drop (L.num 3 + 1) := by
+      have h1' := List.drop_eq_getElem_cons hi'
+      have h2' := List.drop_eq_getElem_cons hi
+      rw [h1', h2'] at hdrop
+      exact (List.cons.inj hdrop).2
+    have hsnoc := drop_take_snoc T0 c (L.num 3) (by omega) hi
+    simp only [loopN, evalCond, hlt, decide_true, if_true]
+    by_cases ht : T0[L.num 3].1 = tag % 256
+    · -- dropped: only i moves
+      have hb : execL E k (ops [(1, r)] [(2, tag)]) fuel Gen.PegSkel.RULE_UNREF_body0 L s =
+          .ok (.cont { L with num := upd L.num 3 (L.num 3 + 1) } s) := by
+        simp [Gen.PegSkel.RULE_UNREF_body0, execL, execStmt, evalCond, evalNE, evalWE, ops, opsWord, hi', he, ht, bind, Except.bind]
+      simp only [hb, bind, Except.bind]
+      have := ih f' { L with num := upd L.num 3 (L.num 3 + 1) } s (by simp [upd]; omega) (by omega) (by simpa [upd] using h1) hlen
+        (by simpa [upd] using hc) (by simp [upd]; omega)
+        (by simp only [upd]; simp only [if_pos, if_neg, show (2 : Nat) ≠ 3 by decide, if_true, if_false]
+            rw [htake, hsnoc, List.filter_append]; simp [ht])
+        (by simpa [upd] using hdrop1)
+      obtain ⟨L', T', g1, g2, g3⟩ := this
+      exact ⟨L', T', g1, g2, g3⟩
+    · -- kept: moved down to w
+      have hwl : L.num 2 < s.tagged.length := by omega
+      have hb : execL E k (ops [(1, r)] [(2, tag)]) fuel Gen.PegSkel.RULE_UNREF_body0 L s =
+          .ok (.cont { L with num := upd (upd L.num 2 (L.num 2 + 1)) 3 (L.num 3 + 1) }
+            { s with tagged := s.tagged.set (L.num 2) T0[L.num 3] }) := by
+        simp [Gen.PegSkel.RULE_UNREF_body0, execL, execStmt, evalCond, evalNE, evalWE, ops, opsWord, hi', he, ht, hwl, upd, bind, Except.bind]
+      simp only [hb, bind, Except.bind]
+      have := ih f' { L with num := upd (upd L.num 2 (L.num 2 + 1)) 3 (L.num 3 + 1) }
+        { s with tagged := s.tagged.set (L.num 2) T0[L.num 3] } (by simp [upd]; omega) (by omega) (by simpa [upd] using h1)
+        (by simpa using hlen) (by simp [upd]; omega) (by simp [upd]; omega)
+        (by simp only [upd]; simp only [if_pos, if_neg, show (2 : Nat) ≠ 3 by decide, if_true, if_false]
+            rw [set_take_succ _ _ _ hwl, htake, hsnoc, List.filter_append]; simp [ht])
+        (by simp only [upd, if_true]; rw [List.drop_set_of_lt (by omega)]; exact hdrop1)
+      obtain ⟨L', T', g1, g2, g3⟩ := this
+      exact ⟨L', T', g1, g2, g3⟩
+
+/-- RULE_UNREF: after a successful sub-rule, the tagged captures it added are dropped - all of them for `rule[2] = 0`, the ones
+    tagged `rule[2] & 0xFF` otherwise (compacted in place, order kept); both tag arrays are cut to the same length.
+    `fuel` = IR loop fuel: one unit per tagged capture added by the sub-rule and one for the exit test. -/
+theorem rule_unref (E : Env) (k : OK ρ) (n fuel : Nat) (r : ρ) (tag : Nat) (s : St) (pos : Nat)
+    (hf : ∀ s0 res s1, down1 s = .ok s0 → k r s0 pos = .ok (res, s1) → s1.tagged.length - s.tagged.length + 1 ≤ fuel) :
+    runL E k (ops [(1, r)] [(2, tag)]) fuel Gen.PegSkel.RULE_UNREF s pos = Op.step E k n (.unref r tag) s pos := by
+  simp only [runL, Gen.PegSkel.RULE_UNREF, execL, execStmt, evalNE, evalCond, Loc.init, Op.step]
+  cases hd : down1 s with
+  | error e => simp [hd, bind, Except.bind]
+  | ok s0 =>
+    have hs0 : s0.tagged = s.tagged := by
+      unfold down1 at hd; split at hd <;> simp at hd; subst hd; rfl
+    cases hk : k r s0 pos with
+    | error e => simp [hd, hk, ops, opsRule, bind, Except.bind]
+    | ok x =>
+      obtain ⟨res, s1⟩ := x
+      cases res with
+      | none => simp [hd, hk, ops, opsRule, upd, bind, Except.bind]
+      | some p =>
+        by_cases ht : tag = 0
+        · simp [hd, hk, ops, opsRule, opsWord, upd, ht, up1, bind, Except.bind]
+        · have hfuel := hf s0 (some p) s1 hd hk
+          simp only [hd, ops, bind, Except.bind]
+          rw [show opsRule [(1, r)] 1 = some r from by simp [opsRule]]
+          simp only [Loc.init, if_true]
+          rw [hk]
+          simp only [show opsWord [(2, tag)] 2 = tag from by simp [opsWord], beq_iff_eq, ht, if_false,
+            show ∀ (f : Nat → Option Nat) (v : Option Nat), upd f 1 v 1 = v from fun f v => by simp [upd], Option.isNone,
+            Bool.false_eq_true]
+          generalize hL0 : Loc.mk _ _ _ _ _ = L0
+          have n0 : L0.num 0 = s.tagged.length := by rw [← hL0]; simp [upd]
+          have n1 : L0.num 1 = s1.tagged.length := by rw [← hL0]; simp [upd, up1]
+          have n2 : L0.num 2 = s.tagged.length := by rw [← hL0]; simp [upd]
+          have n3 : L0.num 3 = s.tagged.length := by rw [← hL0]; simp [upd]
+          have p1 : L0.ptr 1 = some p := by rw [← hL0]; simp [upd]
+          obtain ⟨L', T', g1, g2, g3⟩ := unref_loop E k r tag fuel s1.tagged s.tagged.length (L0.num 1 - L0.num 3) fuel L0 (up1 s1)
+            rfl (by rw [n1, n3]; exact hfuel) n1 (by simp [up1]) (by rw [n2]; exact Nat.le_refl _) (by rw [n2, n3]; exact Nat.le_refl _)
+            (by rw [n2, n3]; simp [up1]) (by simp [up1])
+          simp only [evalCond, ops] at g1
+          rw [g1]
+          have p1' : L'.ptr 1 = some p := by rw [g2]; exact p1
+          simp [Gen.PegSkel.RULE_UNREF_rest0, execL, execStmt, p1', g3, ht, up1, bind, Except.bind]
+
 end JanetModel.Peg.TieSkel
